@@ -23,7 +23,7 @@ func allChecks() []*Check {
 				{Pkg: "client", Func: "VerifC11Split", Quick: map[string]int{"SMAX": 14, "EXTRA": 8}, Thorough: map[string]int{"SMAX": 16, "EXTRA": 14}},
 				{Pkg: "client", Func: "VerifC11SymLen"},
 				{Pkg: "client", Func: "VerifC11Wire", Quick: map[string]int{"EXTRA": 5}, Thorough: map[string]int{"EXTRA": 10}},
-				{Pkg: "client", Func: "VerifC11Default", Quick: map[string]int{"OVER": 0}, Thorough: map[string]int{"OVER": 2}},
+				{Pkg: "client", Func: "VerifC11Default", Quick: map[string]int{"K": 6, "OVER": 2}, Thorough: map[string]int{"K": 12, "OVER": 4}},
 			},
 			Bounds:      map[string]string{"quick": "SplitLen 13..14 with texts of 0..SplitLen+8 bytes (all byte values but CR/LF); any SplitLen < 13 on the comparison; wire framing for 6 methods at SplitLen 13, text <= 18; default path at text length 450", "thorough": "SplitLen 13..16, texts up to SplitLen+14; wire text <= 23; default path 450..452 bytes with SplitLen in {-5,0,1,12}"},
 			Outside:     []string{"texts longer than the bound (more than ~2-4 loop iterations)", "multi-byte character integrity (as in the property)"},
